@@ -39,6 +39,11 @@ def config_histories(tier, rng):
                         break
             else:
                 hs.append({"base": 0, "cfg": muxgen.DEFAULT_CFG, "ops": [{"add": muxgen.tc(kind, **kw)}] + samples})
+    # the configured track KIND is independent of the codec: every kind with every codec, in one movie and alone
+    combos = [(k, tt) for k in ("avc", "hevc", "vp9", "aac", "ttxt") for tt in ("Video", "Audio", "Subtitle")]
+    hs.append({"base": 0, "cfg": muxgen.DEFAULT_CFG, "ops": [{"add": muxgen.tc(k, tt=tt)} for k, tt in combos] + [{"w": [i + 1, 100, 0, True, "aa%02x" % i]} for i in range(len(combos))]})
+    for k, tt in combos:
+        hs.append({"base": 0, "cfg": muxgen.DEFAULT_CFG, "ops": [{"add": muxgen.tc(k, tt=tt)}] + samples})
     # long parameter sets (each at most 65535 bytes; together around and beyond 65536: any 16-bit arithmetic on their combined length shows here)
     for ns, npp in ((40000, 30000), (65535, 4), (65535, 65535), (4, 65535), (32768, 32765), (32768, 32764), (255, 255)):
         sps = bytes([0x67] + [(j * 7 + ns) & 255 for j in range(ns - 1)]).hex()
